@@ -348,6 +348,9 @@ pub fn run(args: &Args) -> i32 {
 		.filter(|s| args.opt("only").map(|o| s.name.contains(o)).unwrap_or(true))
 		.map(to_runner)
 		.collect();
+	// the big enumerations last, so that a wall cap (loaded machine) cuts them rather than a small scenario
+	let mut scns = scns;
+	scns.sort_by_key(|s| if s.name.contains("open-flow") { 3 } else if s.name.contains("abc-forward-claim") || s.name.contains("blocked-updates") { 2 } else { 1 });
 	let r = run_scenarios("C09", args, scns, cap);
 	fill_model_checking_evidence(&mut ev, &r);
 	if args.opt("only").is_none() {
